@@ -514,6 +514,8 @@ func (s *sim) checkRead(side int, pr *pendingRead, res readRes) {
 	}
 	if !pr.drain {
 		s.r.Tracef("%d r %s buf=%d -> n=%d err=%s (stream %s at %d of %d)", pr.op, sideName(side), buflen, n, errClass(res.err), dirName(d), s.delivered[d], s.sent[d])
+	} else if pr.op < 16 {
+		s.r.Tracef("  drain r %s buf=%d -> n=%d err=%s (stream %s at %d of %d)", sideName(side), buflen, n, errClass(res.err), dirName(d), s.delivered[d], s.sent[d])
 	}
 	s.dataReads++
 	if n < 0 || n > buflen {
@@ -664,10 +666,10 @@ func (s *sim) drainDir(d int) {
 	outcome := ""
 	for outcome == "" && !s.r.Failed() && !s.box.hit() {
 		switch {
+		case s.errSeen[d]:
+			outcome = "error" // the fault (or anything else) has been reported to the reader
 		case s.pend[side] != nil:
 			outcome = "blocked"
-		case s.errSeen[d]:
-			outcome = "error"
 		case s.delivered[d] >= s.sent[d] && (!s.fired[d] || extra):
 			outcome = "complete"
 		default:
@@ -681,7 +683,7 @@ func (s *sim) drainDir(d int) {
 					buflen = 1
 				}
 			}
-			s.startRead(side, buflen, -1, true)
+			s.startRead(side, buflen, reads, true)
 			reads++
 		}
 	}
